@@ -152,8 +152,10 @@ def classify(prop: str, sigs: list[dict]) -> tuple[dict, list]:
 def finish(prop: str, *, tier: str, seed: int, t0: float, coverage: dict, assumptions: list,
            known: dict, new: list, level: str = 'model_checking') -> int:
     """Write evidence, print KNOWN-FINDING / VIOLATION lines, return the exit code."""
-    (VERIF / 'evidence').mkdir(exist_ok=True)
-    (VERIF / 'replays').mkdir(exist_ok=True)
+    ev_dir = Path(os.environ.get('VERIF_EVIDENCE_DIR') or VERIF / 'evidence')
+    rp_dir = Path(os.environ.get('VERIF_REPLAY_DIR') or VERIF / 'replays')
+    ev_dir.mkdir(exist_ok=True, parents=True)
+    rp_dir.mkdir(exist_ok=True, parents=True)
     entries = {e['id']: e for e in load_findings(prop)}
     for fid, sigs in sorted(known.items()):
         print(f'KNOWN-FINDING: property={prop} {fid}: {entries[fid]["description"]} ({len(sigs)} occurrence(s) this run)')
@@ -172,7 +174,7 @@ def finish(prop: str, *, tier: str, seed: int, t0: float, coverage: dict, assump
         if key in seen or len(seen) >= 5:
             continue
         seen.add(key)
-        p = VERIF / 'replays' / f'{prop}_{len(seen)}.json'
+        p = rp_dir / f'{prop}_{len(seen)}.json'
         p.write_text(json.dumps(sig, indent=1, sort_keys=True, default=str))
         replay_paths.append(p)
         print(f'VIOLATION property={prop} replay={p}')
@@ -184,7 +186,7 @@ def finish(prop: str, *, tier: str, seed: int, t0: float, coverage: dict, assump
         'coverage': coverage, 'assumptions': assumptions,
         'wall_s': round(time.time() - t0, 2), 'violations': len(new),
     }
-    (VERIF / 'evidence' / f'{prop}.json').write_text(json.dumps(ev, indent=1, default=str))
+    (ev_dir / f'{prop}.json').write_text(json.dumps(ev, indent=1, default=str))
     if rc == 0:
         print(f'OK property={prop} tier={tier} seed={seed} wall_s={ev["wall_s"]}')
     return rc
